@@ -53,17 +53,44 @@ class PathsProfile(StoreProfile):
             sids.append(s)
         c = rng.choice(m.configs)
         spell = rng.choice(["pos", "kw", "default"]) if c == m.default_config else rng.choice(["pos", "kw"])
+        # same string, several types: a free-form last value named like a closed value of a sibling type (a cache node
+        # called 'abc' next to the cache file '.../abc'); both are asked, by uri, in one process
+        if rng.random() < 0.2:
+            cands = []
+            for t in m.types:
+                if t.keys and m.vocab(t.name, t.keys[-1])[0] == "free":
+                    for t2 in m.types:
+                        if t2.n == t.n and t2.name != t.name and t2.keys[:-1] == t.keys[:-1]:
+                            v2 = vocab.values(t2.name, t2.keys[-1])
+                            if v2:
+                                cands.append((t.name, t2.name, v2))
+            if cands:
+                ta, tb, vals = rng.choice(sorted(cands))
+                base = gen_sid(rng, m, vocab, tb, pool, reuse=0.5)
+                if base and m.by_name[ta].accepts(base.split("/")):
+                    sids.append(base)
+                    forced = rng.choice([ta, tb])
+                    return {"op": "path", "sid": base, "cfg": c, "spell": spell, "type": forced}
         if rng.random() < 0.5:
             return {"op": "path", "sid": s, "cfg": c, "spell": spell}
         return {"op": "roundtrip", "sid": s, "cfg": c, "other": rng.choice(m.configs), "spell": spell}
 
-    def path_expr(self, s, c, spell):
-        S = X.sid(s)
+    def path_expr(self, s, c, spell, forced=None):
+        S = X.sid((forced + ":" + s) if forced else s)
         if spell == "default":
             return X.meth(S, "path")
         if spell == "kw":
             return X.meth(S, "path", config=c)
         return X.meth(S, "path", c)
+
+    def same_layout(self, run, tn, s, c, c2):
+        """The 'differ only by the root' clause applies to configurations that share layout and vocabulary (the model's
+        own template-formatted paths say so); a generated configuration may give a path config its own vocabulary."""
+        m = run.m
+        a, b = m.path_of(tn, m.fields(tn, s), c), m.path_of(tn, m.fields(tn, s), c2)
+        if not a or not b:
+            return False
+        return a[len(m.roots(c)):] == b[len(m.roots(c2)):]
 
     def twin_obs(self, run, e):
         key = json.dumps(e, sort_keys=True)
@@ -88,8 +115,10 @@ class PathsProfile(StoreProfile):
             return
         s, c = step["sid"], step["cfg"]
         run.stats["path_cases"] += 1
-        tn = m.natural_type(s)
-        e = self.path_expr(s, c, step["spell"])
+        tn = step.get("type") or m.natural_type(s)
+        if step.get("type"):
+            run.probes["uri_forced_same_string_other_type"] += 1
+        e = self.path_expr(s, c, step["spell"], step.get("type"))
         obs = run.do(e)
         # never an exception; None for untyped Sids and types without a path template
         run.check(not X.is_exc(obs), "C05.path_raises", {"sid": s, "cfg": c, "spell": step["spell"], "got": obs})
@@ -101,7 +130,7 @@ class PathsProfile(StoreProfile):
         p = obs["~P"]
         # purity: same (type, fields, c) -> same value, at every position, in every spelling, and in a fresh process
         seen = run.scratch["seen"]
-        k = (s, c)
+        k = (m.uri(s, tn), c)
         if k in seen:
             run.check(seen[k] == p, "C05.path_not_pure", {"sid": s, "cfg": c, "now": p, "before": seen[k], "spell": step["spell"]})
         seen[k] = p
@@ -112,18 +141,18 @@ class PathsProfile(StoreProfile):
         # injectivity over the run
         pm = run.scratch["pathmap"][c]
         if p in pm:
-            run.check(pm[p] == s, "C05.two_sids_one_path", {"path": p, "cfg": c, "sid_a": pm[p], "sid_b": s})
-        pm[p] = s
+            run.check(pm[p] == m.uri(s, tn), "C05.two_sids_one_path", {"path": p, "cfg": c, "sid_a": pm[p], "sid_b": m.uri(s, tn)})
+        pm[p] = m.uri(s, tn)
         # the other configuration's path differs only by the root
         for c2 in m.configs:
-            if c2 != c and (s, c2) in seen:
+            if c2 != c and (m.uri(s, tn), c2) in seen and self.same_layout(run, tn, s, c, c2):
                 r1, r2 = m.roots(c), m.roots(c2)
-                p2 = seen[(s, c2)]
+                p2 = seen[(m.uri(s, tn), c2)]
                 run.check(p.startswith(r1) and p2.startswith(r2) and p[len(r1):] == p2[len(r2):], "C05.configs_differ_beyond_root",
                           {"sid": s, c: p, c2: p2})
                 run.probes["both_configs_compared"] += 1
         run.case_mark(s, c, step["spell"])
-        if op == "roundtrip":
+        if op == "roundtrip" and not step.get("type"):
             # Sid(path=path(S, c), config=c) == S, whichever configuration was asked about this path before
             c2 = step["other"]
             if c2 != c:
